@@ -10,7 +10,7 @@
                exit(0) / leave through a success status on their own
  R5 classes    every error class named in the property has severity >= ERROR, is not switchable by
                -w/-i, and has a reachable report site
- R6 lookups    resolver lookups are tested before use and the null edge reports / fails   (c04_lookup)
+ R6 lookups    results of resolver lookups / nullable list elements are tested before use   (c04_lookup, shared with C06 R6)
  R7 flags      a flag that decides a diagnostic inside a loop is re-assigned in that loop
  R8 nesting    every nested statement is resolved unless an error was already reported for its guard
  R9 renames    a pending USE/REFERENCE item is matched under the key it is later stored under (AS names)
